@@ -5,6 +5,7 @@ prices gives.  For each writer the entry state has all caches filled from the en
 after the writer — at its normal AND its exceptional exit — every view read through the public properties must equal the
 same view read after all caches were emptied."""
 from pyvc.api import proof, native
+from .common import REJECT
 from .aave_common import *   # noqa
 from .aave_common import AAVE_CONTRACTS, SHAPES, SHAPES_WITH_SUPPLY_OF_OP, SHAPES_WITH_DEBT_OF_OP, SHAPES_WITH_DEBT, world, read_views, reset_caches, dump, add_next_bar
 from demeter.aave._typing import AaveMarketStatus
@@ -35,7 +36,7 @@ def po_supply(S):
     try:
         w.market.supply(w.op, S.dec("amount", None, None), S.bool("collateral"))
         S.cover("accepted")
-    except Exception:
+    except REJECT:
         S.cover("rejected")
     _coherent(S, w.market)
 
@@ -46,7 +47,7 @@ def po_withdraw(S):
     try:
         w.market.withdraw(w.op, S.dec("amount", None, None))
         S.cover("accepted")
-    except Exception:
+    except REJECT:
         S.cover("rejected")
     _coherent(S, w.market)
 
@@ -57,7 +58,7 @@ def po_borrow(S):
     try:
         w.market.borrow(w.op, S.dec("amount", None, None))
         S.cover("accepted")
-    except Exception:
+    except REJECT:
         S.cover("rejected")
     _coherent(S, w.market)
 
@@ -68,7 +69,7 @@ def po_repay(S):
     try:
         w.market.repay(w.op, S.dec("amount", None, None))
         S.cover("accepted")
-    except Exception:
+    except REJECT:
         S.cover("rejected")
     _coherent(S, w.market)
 
@@ -80,7 +81,7 @@ def po_repay_collateral(S):
     try:
         w.market.repay(w.op, S.dec("amount", None, None), True, other)
         S.cover("accepted")
-    except Exception:
+    except REJECT:
         S.cover("rejected")
     _coherent(S, w.market)
 
@@ -91,7 +92,7 @@ def po_change(S):
     try:
         w.market.change_collateral(w.op, S.bool("flag"))
         S.cover("accepted")
-    except Exception:
+    except REJECT:
         S.cover("rejected")
     _coherent(S, w.market)
 
